@@ -75,6 +75,17 @@ def gen(chk):
                 # recovery with recid 2/3 must give Q back; with recid 0/1 something else or failure
                 for recid in range(4):
                     chk.add('ecdsa_recover %s%s%02x %s' % (h32(rr), h32(s), recid, h32(m)), 'recover_high_x')
+    # --- x-comparison logic in isolation: the verifier is made to reconstruct a KNOWN point R (Q is solved from
+    # r, s, m), while r is a near miss of x(R): x + (p-n), x - (p-n), x +- n, x +- 1, x mod n ... ; only r = x mod n verifies
+    for i in range(chk.scale(60, 1500)):
+        k = r.seckey(); R = mul(k, G); X = R[0]
+        cands = [X + (P - N), X - (P - N), X - N, X + N, X + 1, X - 1, X % N, (X + P) % N, P - X, N - X, X ^ 1]
+        for rr in cands:
+            if not (0 < rr < N): continue
+            s = r.choice([1, half, r.seckey() % half + 1]); m = r.scalar256()
+            Q = add(mul(s * inv(rr, N) % N, R), mul((-m * inv(rr, N)) % N, G))
+            if Q is None: continue
+            chk.add('ecdsa_verify %s%s %s %s' % (h32(rr), h32(s), h32(m), pk_obj(Q)), 'verify_xcompare_near_miss' if rr != X % N else 'verify_xcompare_exact')
     # r >= p - n can never use the second comparison
     for rr in (P - N - 1, P - N, P - N + 1, N - 1):
         s = r.seckey() % half + 1; m = r.scalar256(); Q = mul(r.seckey(), G)
